@@ -592,11 +592,14 @@ pub fn byzantine(doc: &mut Value, which: u64) -> Option<String> {
 }
 
 pub fn garbage_body(w: &mut World, key: &str) -> Vec<u8> {
-    match w.draws.draw(&format!("{key}/garbage.kind"), 14) {
+    match w.draws.draw(&format!("{key}/garbage.kind"), 16) {
         8 => b")]}'".to_vec(),
         9 => b")]}".to_vec(),
         10 => b")]}'X{\"response\":{\"protocol\":\"3.0\",\"app\":[]}}".to_vec(),
         11 => b")]}'\n)]}'\n{}".to_vec(),
+        // structurally valid documents with nothing in them
+        14 => b"{\"response\":{\"protocol\":\"3.0\",\"app\":[]}}".to_vec(),
+        15 => b")]}'\n{\"response\":{\"protocol\":\"3.0\",\"server\":\"prod\",\"daystart\":{},\"app\":[]}}".to_vec(),
         12 => b"<html><head><title>Sign in</title></head><body>captive portal</body></html>".to_vec(),
         13 => b"  \n<?xml version=\"1.0\"?><response protocol=\"3.0\"/>".to_vec(),
         0 => vec![],
@@ -664,8 +667,11 @@ pub fn deliver(w: &mut World, id: u64, label: &str) {
     let weights = w.profile.net.weights();
     let mut fault = w.draws.weighted(&format!("{label}/fault"), &weights);
     // an outage: for this whole lifetime every exchange is answered with one and the same status
-    if w.server.outage_status.is_some() {
-        fault = 5;
+    match w.server.outage_status {
+        // (1 and 2 stand for "every request fails in transport" / "every request times out")
+        Some(st) if st < 100 => fault = st as usize,
+        Some(_) => fault = 5,
+        None => {}
     }
     let fault_name = NET_KINDS[fault];
     if fault != 0 {
@@ -734,7 +740,9 @@ pub fn deliver(w: &mut World, id: u64, label: &str) {
             let statuses = [500u16, 503, 404, 400, 429, 301, 304, 100, 204, 201, 599, 403];
             status = statuses[w.draws.draw(&format!("{label}/status.v"), statuses.len() as u64) as usize];
             if let Some(st) = w.server.outage_status {
-                status = st;
+                if st >= 100 {
+                    status = st;
+                }
             }
             if w.draws.draw(&format!("{label}/status.emptybody"), 2) == 1 {
                 body = vec![];
